@@ -77,6 +77,24 @@ theorem branches_cover {S : Schema} {F : Frags} {fuel : Nat} {ss : List Selectio
 example : ∃ cs, branchConds W.S W.noFrags 8 W.selYskip "A" = .ok cs ∧ cs.map (·.vars) = [[("v", false)], [("v", true)]] :=
   ⟨_, rfl, rfl⟩
 
+/-- the parent objects of a branch enumeration are the possible runtime types of the parent (object and union
+    parents; for an interface both sides list the object types that declare it, in schema order) -/
+theorem parentObjects_possibleTypes {S : Schema} {p : Name} {t : TypeDef} {objs : List TypeDef}
+    (ht : S.typeDef? p = some t) (hk : t.kind = .object ∨ t.kind = .union)
+    (h : parentObjects S p = .ok objs) : objs.map (·.name) = S.possibleTypes p := by
+  unfold parentObjects at h
+  simp only [ht] at h
+  unfold Schema.possibleTypes
+  simp only [ht]
+  rcases hk with hk | hk
+  · simp only [hk] at h ⊢
+    cases h; rfl
+  · simp only [hk] at h ⊢
+    exact mapM_member_names S t.members objs h
+
+/-- the hypotheses are satisfiable: the witness object type `A` -/
+example : ∃ objs, parentObjects W.S "A" = .ok objs ∧ objs.map (·.name) = W.S.possibleTypes "A" := ⟨_, rfl, rfl⟩
+
 /-! ### §9-a: sub-tree branches merged by type name only (pre-repair), and the repaired merge -/
 
 /-- **Counterexample to C01 on the pinned code (§9-a).** For the document `{ a { x } a { y @skip(if: $v) } }` the
